@@ -53,6 +53,7 @@ CONSTANTS Gains,       \* set of Rat: alphabet of channel power gains
           Dev,         \* [MuIgnoresEs, SpreadOverAll, AscendingSort, NoUnsort, StopEarly, EsDroppedInLoop,
                        \*  AbsGainFloor : BOOLEAN]
           Opt          \* [AllTieBreaks, DropOnTie, PermAll : BOOLEAN, GridN, ExN : Nat, ExAMax : Rat,
+                       \*  DeadGains : set of Rat (gains added by DeadChannelLaw to vectors of length <= DeadMaxLen <= 3),
                        \*  Scales : set of Rat (factors k of the scaling laws), GainFloor : Rat (Dev.AbsGainFloor),
                        \*  OptAMax : Seq(Rat)]  OptAMax[n] bounds a_i = g_i Es/N0 for which `Optimal` is
                        \*  evaluated on vectors of length n (<<0,1>>: never; longer than the sequence: never)
@@ -243,13 +244,25 @@ ScaleLaws  == Done => \A k \in Opt.Scales :
                 /\ Same(RunOf(Scaled(inp, ROne, ROne, k, k)))             \* only N0/Es matters
                 /\ Same(RunOf(Scaled(inp, k, ROne, ROne, RInv(k))))       \* only g*Es matters
                 /\ Times(RunOf(Scaled(inp, ROne, k, k, ROne)), k)         \* homogeneous of degree 1 in (P, N0)
-\* the same laws for the declaratively defined optimum (they are laws of the problem, not of the algorithm)
+\* the same laws for the declaratively defined optimum (they are laws of the problem, not of the algorithm):
+\* the returned allocation and level (scaled where the law says so) satisfy the KKT conditions of every scaled
+\* problem; KKT determines the optimum uniquely (WaterLevelUnique), so this is OptMu/OptP of the scaled problem
+KktOf(c, q, m) == q = Pour(c, m) /\ QSum(q) = c.p
 ScaleLawsOptimum == Done => \A k \in Opt.Scales :
-                /\ OptMu(Scaled(inp, k, ROne, k, ROne)) = OptMu(inp)
-                /\ OptMu(Scaled(inp, ROne, ROne, k, k)) = OptMu(inp)
-                /\ OptMu(Scaled(inp, k, ROne, ROne, RInv(k))) = OptMu(inp)
-                /\ OptMu(Scaled(inp, ROne, k, k, ROne)) = RMul(OptMu(inp), k)
-                /\ OptP(Scaled(inp, ROne, k, k, ROne)) = [i \in Idx(inp) |-> RMul(OptP(inp)[i], k)]
+                /\ KktOf(Scaled(inp, k, ROne, k, ROne), pw, mu)
+                /\ KktOf(Scaled(inp, ROne, ROne, k, k), pw, mu)
+                /\ KktOf(Scaled(inp, k, ROne, ROne, RInv(k)), pw, mu)
+                /\ KktOf(Scaled(inp, ROne, k, k, ROne), [i \in Idx(inp) |-> RMul(pw[i], k)], RMul(mu, k))
+
+\* a channel whose vessel bottom is not below the water level is irrelevant: adding it (at the front or at the
+\* end of the vector) leaves every other power and the level unchanged and gets power 0 itself.  The harness
+\* uses this law to append channels that are 20 and 300 orders of magnitude weaker than the weakest one.
+DeadChannelLaw == (Done /\ N(inp) <= Opt.DeadMaxLen) => \A d \in Opt.DeadGains :
+                    ~QLt(Bottom(inp, d), mu) =>
+                       /\ LET r == RunOf([inp EXCEPT !.g = Append(inp.g, d)])
+                          IN  r.pw = Append(pw, RZero) /\ r.mu = mu
+                       /\ LET r == RunOf([inp EXCEPT !.g = <<d>> \o inp.g])
+                          IN  r.pw = <<RZero>> \o pw /\ r.mu = mu
 
 \* loop lemmas
 KeepsOne  == pc \in {"loop", "unsort", "mu", "done"} => rem < N(inp)
